@@ -106,6 +106,14 @@ fn signatures() -> Vec<Sig> {
 struct Gen<'a> { r: &'a mut Rng, sigs: &'a [Sig], rots: Vec<(Vec3, f32)>, depth: usize }
 impl Gen<'_> {
     fn num(&mut self) -> S {
+        // rarely: an integer just above the midpoint of two adjacent f32 values, wider than f64's mantissa
+        // (converting through f64 first would lose the low bit and round to even instead of up)
+        if self.r.chance(0.03) {
+            let m = (1i64 << 23) | (self.r.next() as i64 & 0x7f_fffe);      // even 24-bit mantissa
+            let sh = self.r.range(31, 38) as u32;
+            let v = (m << sh) + (1i64 << (sh - 1)) + 1;
+            return S::Int(if self.r.chance(0.3) { -v } else { v });
+        }
         match self.r.below(4) { 0 => S::Int(self.r.range(0, 6) as i64 - 2), 1 => S::Float(*self.r.pick(&[0.5f64, 1.5, 0.25, 2.0, -0.75, 0.1, 3.0, 1e-3])), 2 => S::Int(self.r.range(1, 4) as i64), _ => S::Float((self.r.range(0, 40) as f64 - 20.0) / 8.0) }
     }
     fn numval(n: &S) -> f32 { match n { S::Int(z) => *z as f32, S::Float(f) => *f as f32, _ => f32::NAN } }
